@@ -642,6 +642,62 @@ func ruleBtOrder(c *Ctx, r *R) {
 		return
 	}
 	r.check(firstAppend.IsValid() && firstAppend < loop.Pos(), "fault-first", c.Pos(fd), "the failing operation's line comes first", "btErr no longer reports the failing instruction before the call chain")
+	// an instruction without a position (the CALL that Func synthesises for the host) is not
+	// given an invented one: every pos.String(..) of btErr is under a test that the position is set
+	nStr, nBare := 0, 0
+	ast.Inspect(fd.Body, func(n ast.Node) bool {
+		call, ok := n.(*ast.CallExpr)
+		if !ok || c.CalleeName(call) != "pos.String" {
+			return true
+		}
+		nStr++
+		sel, _ := unparen(call.Fun).(*ast.SelectorExpr)
+		recv := ""
+		if sel != nil {
+			recv = nosp(c.Src(sel.X))
+		}
+		tested := false
+		var child ast.Node = call
+		for p := c.Parent(call); p != nil && p != ast.Node(fd.Body); child, p = p, c.Parent(p) {
+			ifs, ok := p.(*ast.IfStmt)
+			if !ok {
+				continue
+			}
+			cond := nosp(c.Src(ifs.Cond))
+			pos := cond == recv+"!=0" || cond == "!"+recv+".IsZero()"
+			neg := cond == recv+"==0" || cond == recv+".IsZero()"
+			if ifs.Body == child && pos || ifs.Else == child && neg {
+				tested = true
+			}
+		}
+		// or a preceding `if p == 0 { continue }` in an enclosing block
+		child = call
+		for p := c.Parent(call); p != nil && p != ast.Node(fd.Body) && !tested; child, p = p, c.Parent(p) {
+			blk, ok := p.(*ast.BlockStmt)
+			if !ok {
+				continue
+			}
+			for _, st := range blk.List {
+				if st.Pos() >= child.Pos() {
+					break
+				}
+				if ifs, ok := st.(*ast.IfStmt); ok && ifs.Else == nil && len(ifs.Body.List) == 1 {
+					cond := nosp(c.Src(ifs.Cond))
+					_, isBr := ifs.Body.List[0].(*ast.BranchStmt)
+					_, isRet := ifs.Body.List[0].(*ast.ReturnStmt)
+					if (isBr || isRet) && (cond == recv+"==0" || cond == recv+".IsZero()") {
+						tested = true
+					}
+				}
+			}
+		}
+		if !tested {
+			nBare++
+		}
+		return true
+	})
+	r.check(nStr > 0 && nBare == 0, "no invented position", c.Pos(fd), "a position is printed only when the instruction has one",
+		"btErr formats the position of an instruction that has none: an error raised by the CALL that Func/Call makes for the host is reported as `il(...) il:0:0: CALL: ...` (global 0 is \"nil\", minus its first character) — a function and file that do not exist")
 	desc := false
 	if init, ok := loop.Init.(*ast.AssignStmt); ok && len(init.Rhs) == 1 {
 		if be, ok := unparen(init.Rhs[0]).(*ast.BinaryExpr); ok {
